@@ -317,6 +317,62 @@ pub mod verif_api {
         Ok(ColumnUnderTest { iter, blocks })
     }
 
+    /// Same for a fixed-width CHAR column (`char_width = Some(width)`), which no production path builds: the
+    /// column builder and the column iterator are put together by hand.
+    pub async fn build_fixed_char_column(
+        width: u64,
+        nullable: bool,
+        encode: &str,
+        block_size: usize,
+        chunks: &[Vec<DataValue>],
+        start: u32,
+    ) -> StorageResult<ColumnUnderTest> {
+        use bytes::Bytes;
+
+        use crate::array::ArrayImpl;
+        let options = ColumnBuilderOptions {
+            target_block_size: block_size,
+            checksum_type: ChecksumType::Crc32,
+            encode_type: match encode {
+                "rle" => EncodeType::RunLength,
+                "dict" => EncodeType::Dictionary,
+                _ => EncodeType::Plain,
+            },
+            record_first_key: false,
+        };
+        let mut builder = CharColumnBuilder::new(nullable, Some(width), options);
+        for values in chunks {
+            let mut ab = ArrayBuilderImpl::new(&DataType::String);
+            for v in values {
+                ab.push(v);
+            }
+            if let ArrayImpl::String(a) = ab.finish() {
+                builder.append(&a);
+            }
+        }
+        let (index, data) = builder.finish();
+        let blocks = index.len();
+        let mut ib = IndexBuilder::new(ChecksumType::Crc32, blocks);
+        for i in index {
+            ib.append(i);
+        }
+        let column = Column::new(
+            ColumnIndex::from_bytes(&ib.finish())?,
+            ColumnReadableFile::InMemory(Bytes::from(data)),
+            Cache::new(64),
+            BlockCacheKey::default(),
+        );
+        let iter = ColumnIteratorImpl::Char(
+            CharColumnIterator::new(
+                column,
+                start,
+                CharBlockIteratorFactory::new(Some(width as usize)),
+            )
+            .await?,
+        );
+        Ok(ColumnUnderTest { iter, blocks })
+    }
+
     impl ColumnUnderTest {
         pub async fn step(&mut self, op: ReadOp) -> StorageResult<ReadResult> {
             match op {
